@@ -638,6 +638,7 @@ func main() {
 		{"marshalSrc", []string{"MarshalSrc.lean"}, genMarshalSrc},
 		{"kinesisSrc", []string{"KinesisSrc.lean"}, genKinesisSrc},
 		{"frameSrc", []string{"FrameSrc.lean"}, genFrameSrc},
+		{"aggSrc", []string{"AggSrc.lean"}, genAggSrc},
 	}
 	status := map[string]interface{}{}
 	failed := 0
